@@ -948,3 +948,4 @@ def run(ck):
 #  seeded/C27-1 (bucket_cache not overwritten for missing prefix dirs)     -> bucket-skipped-in-cycle (bucket added between two cycles)    CAUGHT
 #  seeded/C27-5 (resume by exact match of last-complete-bucket)                -> bucket-processed-twice-without-kill (marker bucket removed between slices) CAUGHT
 #  seeded/C27-6 (empty lease-age histogram not converted back on reload)       -> lease-checker-resume-histogram-not-a-dict (state saved after empty prefixes) CAUGHT
+#  seeded/C27-7 (move_into_place unlinks the state file before the rename)  -> cycle-number-not-incremented-by-one (kill inside move_into_place before os.rename)  CAUGHT
